@@ -166,6 +166,13 @@ func (w *vzWorld) onVotesStored(nd *vzNode, kind string, h uint64, r uint32, c t
 }
 
 func (o *vzOracles) onActionSaved(nd *vzNode, kind string, h uint64, r uint32, sig string, err error) {
+	if err != nil {
+		return
+	}
+	o.w.mu.Lock()
+	c := nd.lastSigned[fmt.Sprintf("%s/%d/%d", kind, h, r)]
+	o.w.mu.Unlock()
+	o.signatureLeft(nd, kind, h, r, c)
 }
 
 // ---- C04: committed chain immutable, gap-free, hash-linked; position monotone
@@ -279,6 +286,24 @@ func (o *vzOracles) onSign(nd *vzNode, kind string, h uint64, r uint32, content 
 	if o.w.s.Stopped() {
 		return
 	}
+	// A signature counts once it is in the action store or handed to the mirror: one that the signer
+	// produced right before the process stopped, and that was neither stored nor released, has never
+	// existed as far as anybody can tell.
+	k := fmt.Sprintf("%s/%d/%d", kind, h, r)
+	o.w.mu.Lock()
+	if nd.lastSigned == nil {
+		nd.lastSigned = map[string]string{}
+	}
+	nd.lastSigned[k] = string(content)
+	o.w.mu.Unlock()
+	o.w.s.Logf("%s signs %s %d/%d", nd.ident(), kind, h, r)
+}
+
+// signatureLeft: the signature over content has been stored or released.
+func (o *vzOracles) signatureLeft(nd *vzNode, kind string, h uint64, r uint32, content string) {
+	if o.w.s.Stopped() || content == "" {
+		return
+	}
 	o.mu.Lock()
 	defer o.mu.Unlock()
 	k := fmt.Sprintf("%s/%d/%d", kind, h, r)
@@ -286,10 +311,9 @@ func (o *vzOracles) onSign(nd *vzNode, kind string, h uint64, r uint32, content 
 	if nd.signed[k] == nil {
 		nd.signed[k] = map[string]bool{}
 	}
-	nd.signed[k][string(content)] = true
+	nd.signed[k][content] = true
 	n := len(nd.signed[k])
 	o.w.mu.Unlock()
-	o.w.s.Logf("%s signs %s %d/%d", nd.ident(), kind, h, r)
 	if n > 1 && !nd.byz {
 		when := "same-process"
 		if nd.inc > 1 {
@@ -552,7 +576,21 @@ func (o *vzOracles) onGossipUpdate(nd *vzNode, u tmelink.NetworkViewUpdate) {
 	}
 }
 
-func (o *vzOracles) onSMAction(nd *vzNode, a tmeil.StateMachineRoundAction) {}
+func (o *vzOracles) onSMAction(nd *vzNode, a tmeil.StateMachineRoundAction) {
+	// a vote handed to the mirror has been released, stored or not
+	o.mu.Lock()
+	e, ok := o.smEntered[nd.ident()]
+	o.mu.Unlock()
+	if !ok {
+		return
+	}
+	if len(a.Prevote.Sig) > 0 && len(a.Prevote.SignContent) > 0 {
+		o.signatureLeft(nd, "prevote", e[0], uint32(e[1]), string(a.Prevote.SignContent))
+	}
+	if len(a.Precommit.Sig) > 0 && len(a.Precommit.SignContent) > 0 {
+		o.signatureLeft(nd, "precommit", e[0], uint32(e[1]), string(a.Precommit.SignContent))
+	}
+}
 
 func (o *vzOracles) onRoundEntrance(nd *vzNode, re tmeil.StateMachineRoundEntrance) {
 	o.w.s.Logf("%s state machine enters %d/%d", nd.ident(), re.H, re.R)
